@@ -43,10 +43,10 @@ var c03ExemptAllowedState = map[string][]string{
 }
 
 var c03EmissionExemptions = map[string]string{
-	"internal/codegen.Pipeline.Run range targetsByLanguage":                "the body is a whole language back-end; iterations are independent iff C07's clauses hold (passes run on copies, no package-level state, per-language Language values); every output path is prefixed by the language's directory; all files go through the path-keyed codejen.FS",
-	"internal/jennies/python.Builder.Generate range buildersByPackage":     "one file per package; import map, type formatters and text buffer are re-created at the top of the body; the API-reference collector is a map keyed by builder/package reference and buildersByPackage partitions builders by package",
-	"internal/jennies/java.Factory.Generate range factoryByPackage":        "one file per package; generateFactories builds its import map and formatter locally; factoryByPackage partitions factories by package",
-	"internal/jennies/php.Factory.Generate range factoryByPackage":         "one file per package; generateFactories builds its formatter locally; factoryByPackage partitions factories by package",
+	"internal/codegen.Pipeline.Run range targetsByLanguage":                        "the body is a whole language back-end; iterations are independent iff C07's clauses hold (passes run on copies, no package-level state, per-language Language values); every output path is prefixed by the language's directory; all files go through the path-keyed codejen.FS",
+	"internal/jennies/python.Builder.Generate range buildersByPackage":             "one file per package; import map, type formatters and text buffer are re-created at the top of the body; the API-reference collector is a map keyed by builder/package reference and buildersByPackage partitions builders by package",
+	"internal/jennies/java.Factory.Generate range factoryByPackage":                "one file per package; generateFactories builds its import map and formatter locally; factoryByPackage partitions factories by package",
+	"internal/jennies/php.Factory.Generate range factoryByPackage":                 "one file per package; generateFactories builds its formatter locally; factoryByPackage partitions factories by package",
 	"internal/jennies/common.APIReference.referenceForSchema range virtualObjects": "one file per virtual object, path derived from the object reference; formatters are per-language closures that only read their arguments",
 }
 
@@ -930,14 +930,14 @@ func (st *c03State) onlyInErrorOrLen(info *types.Info, parents map[ast.Node]ast.
 // otherSources asserts the absence of other scheduling freedom.
 func (st *c03State) otherSources() {
 	banned := map[string]map[string]bool{
-		"time":        {"Now": true, "Since": true, "Until": true},
-		"math/rand":   nil,
+		"time":         {"Now": true, "Since": true, "Until": true},
+		"math/rand":    nil,
 		"math/rand/v2": nil,
-		"crypto/rand": nil,
-		"os":          {"Getenv": true, "Environ": true, "LookupEnv": true, "Getpid": true, "Hostname": true},
-		"reflect":     {"MapKeys": true, "MapRange": true},
-		"sync":        nil,
-		"sync/atomic": nil,
+		"crypto/rand":  nil,
+		"os":           {"Getenv": true, "Environ": true, "LookupEnv": true, "Getpid": true, "Hostname": true},
+		"reflect":      {"MapKeys": true, "MapRange": true},
+		"sync":         nil,
+		"sync/atomic":  nil,
 	}
 	// packages where process-environment reads are the documented behaviour
 	envOK := map[string]bool{modulePath + "/internal/envvars": true, modulePath + "/cmd/cli": true}
